@@ -46,6 +46,8 @@ impl Env {
         std::fs::create_dir_all(&root).unwrap();
         for (uri, data) in &p.files {
             let rel = uri.trim_start_matches("rsync://");
+            // host names are case-insensitive: the fake serves them under their lower-case form
+            let rel = match rel.split_once('/') { Some((h, rest)) => format!("{}/{}", h.to_ascii_lowercase(), rest), None => rel.to_string() };
             let path = root.join(rel);
             std::fs::create_dir_all(path.parent().unwrap()).unwrap();
             std::fs::write(&path, data).unwrap();
